@@ -46,6 +46,7 @@ M_ACTIONS = [
     # M's own task waits for H's first task and M cancels it again: H's task is none of M's business
     ("enq-on-others-then-cancel", [("enq", 3), ("cancel", 3)], dict(deps=[0], codes=(0,))),
     ("state-others-task", [("state1", 0)], None),
+    ("enq-cancel-one-write", [("enq+cancel", 3)], dict(deps=[], codes=(0,))),
 ]
 
 
@@ -58,7 +59,7 @@ def scenario(mseq, cores=2):
     for label in mseq:
         _, ops, tdef = next(a for a in M_ACTIONS if a[0] == label)
         if tdef is not None:
-            if any(o[0] in ("enq", "enq+states") and o[1] == 3 for o in mops):
+            if any(o[0] in ("enq", "enq+states", "enq+cancel") and o[1] == 3 for o in mops):
                 return None  # M defines at most one task of its own per scenario
             tasks[3] = dict(tdef)
             if tasks[3].pop("unstartable", False):
@@ -107,7 +108,7 @@ def run(ctx):
     if quick:
         # length-2 sequences: every pair whose first action can kill or wedge M's handler, followed by every action
         firsts = ("garbage", "cancel-unknown-id", "enq-extra-field", "half-line-eof", "states-drain-fails")
-        scs += [s for s in (scenario((a, b[0])) for a in firsts for b in M_ACTIONS if b[0] not in ("enq-on-others-then-cancel", "state-others-task")) if s is not None]
+        scs += [s for s in (scenario((a, b[0])) for a in firsts for b in M_ACTIONS if b[0] not in ("enq-on-others-then-cancel", "state-others-task", "enq-cancel-one-write")) if s is not None]
     short = [s for s in scs if len(s["mseq"]) <= 1]
     longer = [s for s in scs if len(s["mseq"]) > 1]
     ctx.pmap(me, "pool_batch", short, chunk=1, prop=ID, bound=1 if quick else 2)
@@ -120,7 +121,7 @@ def run(ctx):
     ctx.pmap(me, "socket_batch", seqs, chunk=max(4, len(seqs) // 16))
     ctx.traces_validated = ctx.acc.extra["traces_validated"]
     ctx.notes.setdefault("coverage_extra", {})["real_socket_sequences"] = len(seqs)
-    ctx.rule = "scenario = sequence of M actions (29-action alphabet) next to fixed H and N scripts; all interleavings of client operations and process exits; non-trivial = distinct scenario"
+    ctx.rule = "scenario = sequence of M actions (30-action alphabet) next to fixed H and N scripts; all interleavings of client operations and process exits; non-trivial = distinct scenario"
     ctx.bound = dict(scenarios=len(scs), m_actions=len(M_ACTIONS), m_len=1 if quick else 2, deviations="1 for |M|<=1, 0 for |M|=2" if quick else "2 for |M|<=1, 1 for |M|=2", cores=2)
     ctx.assumptions = ["connections are asyncio.StreamReader objects fed by the explorer + recording writers (real sockets: real-socket tier)", "shutdown is an administrative request, not misbehaviour"]
 
